@@ -64,8 +64,9 @@ def compare_one(ctx, prog, watch, kind):
     cap = prog["ticks"] + 12
     res = runner.run_text(text, maxticks=cap, watch=watch)
     if not res.built:
-        ctx.inconclusive_case("generated program did not build: %s" % (res.build_msgs[-1:],))
-        ctx.sample({"unbuilt": text[:1500]})
+        # the generators only emit well-formed scripts (they all build on the reference semantics' side)
+        ctx.fail("well-formed-program-rejected", "a well-formed generated program did not build: %r %s" % (
+            res.build_error, res.build_msgs[-1:]), {"program": text, "error": repr(res.build_error), "messages": res.build_msgs[-3:]})
         return
     try:
         ref = refint.Ref(prog, maxticks=cap).run()
